@@ -290,6 +290,8 @@ func (out *Output) sideways() {
 
 // properly update [GlyphBounds]
 func (out *Output) moveCrossAxis(d fixed.Int26_6) {
+	// the glyphs of a wrapped line are shared with the runs given to the wrapper: work on a copy
+	out.Glyphs = append([]Glyph(nil), out.Glyphs...)
 	if out.Direction.IsVertical() {
 		for i := range out.Glyphs {
 			out.Glyphs[i].XOffset += d
